@@ -608,8 +608,9 @@ def _metrics_exit_never_raises(prop):
     exception there would replace the body's outcome and skip the restoring of the state variable.  That is the completion
     protocol of C09 (a finished scope completes exactly when all scopes nested under it, at any depth, are completed; an
     ancestor is completed at most once): its contracts are re-checked under every property that leans on it."""
-    from .C09 import CompleteIfAble, Finish
-    return [variant(CompleteIfAble, prop, ("",)), variant(Finish, prop, ("",))]
+    from .C09 import CompleteIfAble, Finish, Init
+    # (Init: a scope made under an already completed scope is detached from it - otherwise its exit notifies a completed parent)
+    return [variant(CompleteIfAble, prop, ("",)), variant(Finish, prop, ("",)), variant(Init, prop, ("",))]
 
 
 def extra_contracts():
